@@ -13,7 +13,7 @@ def check(tier, seed):
     n = 200 if tier == 'thorough' else 8
     lines, meta = [], []
     for s in fam.SETS:
-        for i, xi in enumerate(fam.seeds(rng, n)):
+        for i, xi in enumerate(fam.boundary_seeds(s, 2) + fam.seeds(rng, n)):
             for src in ('gen', 'rt'):
                 lines.append(f"derive {s} {src}:{xi.hex()}"); meta.append((s, xi, src, 'derive', i))
             lines.append(f"pk_from {s} gen:{xi.hex()}"); meta.append((s, xi, 'gen', 'pk', i))
@@ -61,6 +61,12 @@ def check(tier, seed):
                 cases.append({'line': f"verify {s} {mode} {ps} {hx(msg)} {hx(ctx)} {sig.hex()}", 'tag': f'valid signature under {src}', 'want': 'true', 'model': mode == 'pure' and src == 'der:gen'})
                 cases.append({'line': f"verify {s} {mode} {ps} {hx(msg)} {hx(ctx)} {bytes(badsig).hex()}", 'tag': f'invalid signature under {src}', 'want': 'false', 'model': False})
                 cases.append({'line': f"verify {s} {mode} {ps} {hx(msg + b'!')} {hx(ctx)} {sig.hex()}", 'tag': f'wrong message under {src}', 'want': 'false', 'model': False})
+    # constructed private keys whose t = A s1 + s2 lands at or above q / below 0 before the final reduction (measure-zero for
+    # honest keys: about 1e-4 per key); expected public key bytes from the reference
+    for s in fam.SETS:
+        for tag, skb, pkb in fam.boundary_t_keys(rng, s, want=2 if tier == 'quick' else 8):
+            cases.append({'line': f"derive {s} bytes:{skb.hex()}", 'tag': 'derive on boundary key: ' + tag.split('(')[0].strip(),
+                          'want': (lambda e: (lambda o: None if o.startswith('ok ') and o.endswith('bytes=' + e) else 'derived public key must be pkEncode(rho, Power2Round(A s1 + s2 mod q).t1)'))(pkb.hex()), 'model': True})
     core.run_and_judge(rep, cases, model_every=0)
     return core.finish(rep, b, 'proof', {
         'rule': 'one case per (set, seed, sk provenance in {generated, round-tripped}): derived struct fields and bytes compared with the generated public key; '
